@@ -113,7 +113,7 @@ class _Writer:
                 nm = dotted(c.func)
                 if nm and depth < 3:
                     q = f"{self.module}.{nm}"
-                    if q in self.prog.functions and nm.startswith("export"):
+                    if q in self.prog.functions:          # any helper of the module (private helpers included)
                         out.extend(self.tokens(self.prog.functions[q].node.body, depth + 1))
         return out
 
@@ -172,7 +172,7 @@ class _Reader:
                     continue
                 if depth < 3:
                     q = f"{self.module}.{nm}"
-                    if q in self.prog.functions and nm.startswith("import"):
+                    if q in self.prog.functions:          # any helper of the module (private helpers included)
                         out.extend(self.tokens(self.prog.functions[q].node.body, depth + 1))
         return out
 
@@ -565,7 +565,7 @@ def _layout(prog, res, exp, imp, eb, ib) -> None:
             if (dotted(c.func) or "") == "export_array" and len(c.args) >= 2:
                 worder = _written_order(exp.node, c.args[1])
                 wcall = c
-    rorder = _reshape_order_in(ib["matrix"])
+    rorder = _reshape_order_in(ib["matrix"], prog, imp.module)
     desc = "matrix: enumeration order written == order rebuilt on import"
     where = prog.loc(exp, wcall) if wcall is not None else prog.loc(exp)
     if worder is None or rorder is None:
@@ -595,7 +595,7 @@ def _layout(prog, res, exp, imp, eb, ib) -> None:
         for c in calls_in(ef.node):
             if isinstance(c.func, ast.Attribute) and c.func.attr == "tofile":
                 worder = _written_order(ef.node, c.func.value)
-    rorder = _reshape_order_in(ib["ktensor"])
+    rorder = _reshape_order_in(ib["ktensor"], prog, imp.module)
     desc = "factor matrix: enumeration order written == order rebuilt on import"
     where = prog.loc(ef)
     if worder is None or rorder is None:
@@ -607,11 +607,18 @@ def _layout(prog, res, exp, imp, eb, ib) -> None:
                 f"rows written in {worder} order, importer reshapes in {rorder} order: non-square factors are scrambled")
 
 
-def _reshape_order_in(body) -> Optional[str]:
+def _reshape_order_in(body, prog=None, module=None, depth=0) -> Optional[str]:
+    """Order of the reshape that rebuilds the matrix in `body`, following calls of helpers of the same module."""
     r = None
     for st in body:
         for n in ast.walk(st):
             if isinstance(n, ast.Call) and (dotted(n.func) or "").split(".")[-1] == "reshape":
                 o = kwarg(n, "order")
                 r = "C" if o is None else (const(o) if const(o) in ("F", "C") else None)
+            elif isinstance(n, ast.Call) and prog is not None and depth < 3:
+                q = f"{module}.{dotted(n.func) or ''}"
+                if q in prog.functions:
+                    sub = _reshape_order_in(prog.functions[q].node.body, prog, module, depth + 1)
+                    if sub is not None:
+                        r = sub
     return r
